@@ -310,6 +310,14 @@ def verify_harness(work, spec, meta):
     elif unsupported:
         res["status"] = "UNDETERMINED"
         res["detail"] = "unsupported construct reachable: " + unsupported[0]["description"][:120]
+    elif unwind_fail and spec.get("nontermination_fns") and all(any(n in u["function"] for n in spec["nontermination_fns"]) for u in unwind_fail):
+        # the loop is required to terminate within the bound (the event sequence is finite and ends in Eof forever):
+        # a failing unwinding assertion in it is a non-termination counterexample, not a too-small bound
+        res["status"] = "FAIL"
+        for u in unwind_fail:
+            u["description"] = "loop does not terminate within the bound: " + u["description"]
+        res["failed"] = unwind_fail
+        res["detail"] = "non-termination: " + "; ".join(f"{u['function'][:80]}" for u in unwind_fail[:3])
     elif unwind_fail:
         res["status"] = "UNWIND"
         res["detail"] = f"unwinding assertion failed ({len(unwind_fail)}): bound {uw} too small: " + unwind_fail[0]["function"]
@@ -338,10 +346,14 @@ def concrete_playback(work, spec):
            "--exact", "--harness", name, "--target-dir", work.target]
     if not spec.get("mem_checks", False):
         cmd += ["--no-memory-safety-checks"]
+    # same CBMC field-sensitivity setting as the verification run (without it the trace run of a
+    # 9-second harness needed 30 GB); must come last: --cbmc-args swallows the rest of the line
+    cmd += ["-Z", "unstable-options", "--cbmc-args", "--max-field-sensitivity-array-size", "128"] + spec.get("cbmc_args", [])
     logp = os.path.join(work.out, re.sub(r"[^A-Za-z0-9_]", "_", name), "playback_gen.log")
     with open(logp, "w") as lf:
         try:
-            subprocess.run(cmd, cwd=work.h, env=env_offline(), stdout=lf, stderr=subprocess.STDOUT, timeout=spec.get("timeout", 600) * 2 + 300)
+            subprocess.run(cmd, cwd=work.h, env=env_offline(), stdout=lf, stderr=subprocess.STDOUT, timeout=spec.get("timeout", 600) * 2 + 300,
+                           preexec_fn=_limits(24))
         except subprocess.TimeoutExpired:
             return None
     txt = open(logp).read()
@@ -402,6 +414,27 @@ def inject_and_run_playback(work, spec, test_src):
                 out[prof + "_panic"] = (mm.group(1) + " " + mm.group(2))[:300]
         else:
             out[prof] = "error"
+    return out
+
+
+def fibex_replay(work, case):
+    """Event-level counterexamples (end of file inside <PDU>/<FRAME>) are turned into
+    truncated documents and loaded natively in a child process under a wall-clock limit."""
+    import smt.engine as smt_engine
+    bins = smt_engine.build_native(work, log)
+    out = {"runs": []}
+    for i, doc in enumerate(case["documents"]):
+        path = os.path.join(work.dir, f"trunc{i}.xml")
+        open(path, "w").write(doc)
+        for prof in ("dev", "release"):
+            try:
+                r = subprocess.run([bins[prof], "fibex", path], stdout=subprocess.PIPE, stderr=subprocess.PIPE, text=True, timeout=10)
+                verdict = "returns:" + r.stdout.strip() if r.returncode == 0 else f"crash rc={r.returncode}"
+            except subprocess.TimeoutExpired:
+                verdict = "hang (>10 s)"
+            out["runs"].append({"document": i, "profile": prof, "verdict": verdict})
+            if not verdict.startswith("returns:") and not out.get("reproduced"):
+                out["reproduced"] = f"document {i} [{prof}]: {verdict}"
     return out
 
 
@@ -590,6 +623,24 @@ def run_property(prop, tier, jobs, only, keep, seed):
                     continue
                 spec = byname[r["harness"]]
                 log(f"  replaying counterexample of {r['harness']} natively ...")
+                if spec.get("replay") == "fibex_truncated":
+                    os.makedirs(CASES, exist_ok=True)
+                    cpath = os.path.join(CASES, f"{prop}-{re.sub(r'[^A-Za-z0-9_]', '_', r['harness'])}.json")
+                    case = {"property": prop, "harness": r["harness"], "engine": "fibex", "failed_checks": unknown,
+                            "documents": ['<?xml version="1.0"?>\n<FIBEX><ELEMENTS><PDUS><PDU ID="P1"><SHORT-NAME>x</SHORT-NAME>',
+                                          '<?xml version="1.0"?>\n<FIBEX><ELEMENTS><FRAMES><FRAME ID="F1"><SHORT-NAME>x</SHORT-NAME>']}
+                    case["native"] = fibex_replay(work, case)
+                    json.dump(case, open(cpath, "w"), indent=1)
+                    if case["native"].get("reproduced"):
+                        print(f"VIOLATION property={prop} replay={cpath}  harness={r['harness']} reproduced={case['native']['reproduced']} check={unknown[0]['description'][:120]!r}")
+                        violations += 1
+                        exit_code = max(exit_code, 1)
+                        replayed[ckey] = (True, cpath, "native")
+                    else:
+                        log(f"  non-termination counterexample of {r['harness']} did not reproduce with truncated documents -> inconclusive")
+                        exit_code = max(exit_code, 2)
+                        replayed[ckey] = (False, cpath, "")
+                    continue
                 test_src = concrete_playback(work, spec)
                 case = {"property": prop, "harness": r["harness"], "failed_checks": unknown, "tier": tier,
                         "playback_test": test_src, "mem_checks": spec.get("mem_checks", False), "timeout": spec.get("timeout", 600)}
@@ -631,6 +682,18 @@ def run_property(prop, tier, jobs, only, keep, seed):
 
 def run_replay(prop, path):
     case = json.load(open(path))
+    if case.get("engine") == "fibex":
+        work = Work()
+        try:
+            work.snapshot()
+            nat = fibex_replay(work, case)
+        finally:
+            work.close()
+        log(f"native replay: {nat}")
+        if nat.get("reproduced"):
+            print(f"VIOLATION property={case['property']} replay={path}")
+            return 1
+        return 0
     if case.get("engine") == "smt":
         import smt.engine as smt_engine
         work = Work()
@@ -693,6 +756,10 @@ def main():
     seed = int(os.environ.get("VERIF_SEED", "0") or 0)
     if a.replay:
         sys.exit(run_replay(a.prop, a.replay))
+    if a.only:
+        # partial (debugging) runs must not overwrite the evidence of complete runs
+        global EVID
+        EVID = os.path.join(TMPBASE, "evidence-partial")
     sys.exit(run_property(a.prop, a.tier, a.jobs, a.only, a.keep, seed))
 
 
